@@ -150,7 +150,17 @@ def concurrent_first_use(rec, rng, n):
         time.sleep(0.0005)
 
     mon.register_callback(TOOL, mon.events.LINE, on_line)
-    mon.set_local_events(TOOL, MP.Map.update.__code__, mon.events.LINE)
+    from werkzeug.routing import matcher as _MM
+
+    codes = [MP.Map.update.__code__]
+    try:
+        codes.append(_MM.StateMachineMatcher.update.__code__)
+    except AttributeError:
+        pass
+    for c_ in list(codes):
+        codes += [k for k in c_.co_consts if hasattr(k, "co_code")]  # nested helpers are code objects of their own
+    for c_ in codes:
+        mon.set_local_events(TOOL, c_, mon.events.LINE)
     try:
         for _ in range(n):
             def mk():
@@ -199,7 +209,8 @@ def concurrent_first_use(rec, rng, n):
                                       {"rules": [r.rule for r in proto], "endpoint": ep, "values": dict(vk)}, monitor="schedule-stress")
                         break
     finally:
-        mon.set_local_events(TOOL, MP.Map.update.__code__, 0)
+        for c_ in codes:
+            mon.set_local_events(TOOL, c_, 0)
         mon.free_tool_id(TOOL)
     rec.observe("concurrent_injected_yields", inj[0])
 
